@@ -1,4 +1,4 @@
-import IcyVerif.Model.Undo
+import IcyVerif.Model.UndoApi
 import IcyVerif.Drv.Util
 /-! Line protocol for the editor/undo model (C08).
 
@@ -7,23 +7,26 @@ import IcyVerif.Drv.Util
                       `U` and stop at a step outside the modelled fragment)
 `undo fails <spec>` → `F` when the LAST op of the history is an edit that does not succeed, `ok` otherwise
 
-`<spec>` is the replay syntax of `harness/src/c08.rs`: `D,bw,bh,fontmode,fullfont;L,w,h,ox,oy,flags,rw,rh,seed;…;op,args;…`. -/
+`<spec>` is the replay syntax of `harness/src/c08.rs`: `D,bw,bh,fontmode,fullfont,initfont;L,w,h,ox,oy,flags,rw,rh,seed;…;op,args;…`
+(font operations carry the identity of the font as their last argument, `-1` = no such font).
+Every public operation runs through `Call.steps` and `Ed.run` — the function the history theorems are about. -/
 namespace IcyVerif.Drv.Undo
-open IcyVerif.Undo IcyVerif.Drv
+open IcyVerif.Undo IcyVerif.Drv IcyVerif.Gen.Undo
 
 /-- the cell pattern of `c08.rs::pat` -/
 def pat (seed : Nat) (x y : Nat) : Cell :=
   let v := (seed * 31 + x * 7 + y * 13) % 11
   if v < 3 then Cell.invisible else ⟨65 + (v + x + y) % 20, 0, (x + seed) % 16, (y + seed) % 8, 0⟩
 
-def mkLayer (a : List Int) : LayerM :=
+def mkLayer (idx : Nat) (a : List Int) : LayerM :=
   let g (i : Nat) : Int := a.getD i 0
   let flags := (g 4).toNat
   let rw := (g 5).toNat
   let rh := (g 6).toNat
   let seed := (g 7).toNat
   { w := g 0, h := g 1,
-    props := ⟨flags % 2 == 0, flags / 2 % 2 == 1, flags / 4 % 2 == 1, flags / 8 % 2 == 1, flags / 16 % 2 == 1, g 2, g 3⟩,
+    props := ⟨flags % 2 == 0, flags / 2 % 2 == 1, flags / 4 % 2 == 1, flags / 8 % 2 == 1, flags / 16 % 2 == 1, g 2, g 3,
+      "L" ++ toString idx, 0⟩,
     lines := (List.range rh).map fun y => (List.range rw).map fun x => pat seed x y }
 
 def parseTok (t : String) : String × List Int :=
@@ -37,17 +40,31 @@ def layerFlags (l : LayerM) : Nat :=
   (if l.props.visible then 0 else 1) + (if l.props.locked then 2 else 0) + (if l.props.posLocked then 4 else 0)
     + (if l.props.hasAlpha then 8 else 0) + (if l.props.alphaLocked then 16 else 0)
 
+/-- insertion sort of the font table by slot -/
+def sortFonts (m : List (Nat × Nat)) : List (Nat × Nat) :=
+  m.foldl (fun acc p => (acc.filter (·.1 < p.1)) ++ p :: (acc.filter (·.1 > p.1))) []
+
 /-- the integers of `c08.rs::model_snap` -/
 def snap (ed : Ed) : List Nat :=
   let d := ed.doc
-  let head := [enc d.w, enc d.h, ed.undoStack.length, if ed.redoStack.isEmpty then 0 else 1, d.layers.length, enc d.caretX, enc d.caretY]
+  let head := [enc d.w, enc d.h, ed.undoStack.length, if ed.redoStack.isEmpty then 0 else 1, d.layers.length, enc d.caretX, enc d.caretY,
+    d.fontPage, d.x.fontMode, d.x.iceMode, d.x.paletteMode, match d.x.sauce with
+      | some k => k + 1
+      | none => 0]
+  let pal := d.x.palette.length :: d.x.palette
+  let fonts := let f := sortFonts d.x.fonts; f.length :: f.foldr (fun p acc => p.1 :: p.2 :: acc) []
   let sel := match d.sel with
-    | some s => let r := s.asSelRect; [1, enc r.x, enc r.y, enc r.w, enc r.h]
+    | some s => [1, enc s.r.x, enc s.r.y, enc (s.r.x + s.r.w), enc (s.r.y + s.r.h), s.addType, if s.lines then 1 else 0]
     | none => [0]
+  -- the selection mask as `get_is_mask_selected` shows it on the buffer plus a margin
+  let mw := (min (max d.w 0) 40).toNat + 2
+  let mh := (min (max d.h 0) 40).toNat + 2
+  let mask := (List.range mh).foldr (fun (y : Nat) acc => (List.range mw).foldr (fun (x : Nat) acc => (if d.mask.get (x : Int) (y : Int) then 1 else 0) :: acc) acc) []
   let layers := d.layers.foldr (fun l acc =>
-    [enc l.w, enc l.h, enc l.props.offX, enc l.props.offY, layerFlags l, l.lines.length]
+    [enc l.w, enc l.h, enc l.props.offX, enc l.props.offY, layerFlags l, l.props.role, l.props.title.utf8ByteSize]
+      ++ l.props.title.toUTF8.toList.map (·.toNat) ++ [l.lines.length]
       ++ l.lines.foldr (fun r acc => r.length :: r.foldr (fun c acc => c.ch :: c.attr :: c.fg :: c.bg :: c.page :: acc) acc) acc) []
-  head ++ sel ++ layers
+  head ++ pal ++ fonts ++ sel ++ mask ++ layers
 
 def hash (ed : Ed) : String := toString (fnv (snap ed)).toNat
 
@@ -57,18 +74,16 @@ inductive Out
   | stepFail (e : Err)
   | unmodelled
 
-def ofEdit (r : Except Err Ed) : Out :=
-  match r with
-  | .ok ed => .ok ed
-  | .error _ => .editFail
-
-/-- runs the step list of a modelled public operation through `Ed.run` — the function the framework theorem is about -/
+/-- runs the step list of a public operation through `Ed.run` — the function the framework theorem is about -/
 def viaSteps (ed : Ed) (c : Call) : Out :=
   match ed.run 0 c.steps with
   | .ok ed' => .ok ed'
   | .error .editFailed => .editFail
   | .error (.undoFailed e) => .stepFail e
   | .error (.redoFailed e) => .stepFail e
+
+/-- font identity argument: negative = the font does not exist -/
+def fontArg (v : Int) : Option Nat := if v < 0 then none else some v.toNat
 
 def step (ed : Ed) (name : String) (a : List Int) : Out :=
   let g (i : Nat) : Int := a.getD i 0
@@ -79,7 +94,9 @@ def step (ed : Ed) (name : String) (a : List Int) : Out :=
   | "ga" => viaSteps ed .beginAtomic
   | "ge" => viaSteps ed .endAtomic
   | "cl" => viaSteps ed (.setCurrentLayer (n 0))
+  | "clp" => viaSteps ed .selectPasteLayer
   | "cp" => viaSteps ed (.setCaret (g 0) (g 1))
+  | "ca" => .ok ed   -- the caret attribute is editor state the model does not carry
   | "mm" => viaSteps ed (.setMirror (g 0 != 0))
   | "al" => viaSteps ed (.addLayer (n 0))
   | "rl" => viaSteps ed (.removeLayer (n 0))
@@ -87,40 +104,87 @@ def step (ed : Ed) (name : String) (a : List Int) : Out :=
   | "lo" => viaSteps ed (.lowerLayer (n 0))
   | "du" => viaSteps ed (.duplicateLayer (n 0))
   | "cll" => viaSteps ed (.clearLayer (n 0))
+  | "mg" => viaSteps ed (.mergeLayerDown (n 0))
+  | "an" => viaSteps ed .anchorLayer
   | "tv" => viaSteps ed (.toggleVisibility (n 0))
   | "mv" => viaSteps ed (.moveLayer (g 0) (g 1))
   | "sls" => viaSteps ed (.setLayerSize (n 0) (g 1) (g 2))
+  | "ulp" => viaSteps ed (.updateLayerProps (n 0) (n 1))
+  | "rot" => viaSteps ed .rotateLayer
+  | "mt" => viaSteps ed .makeTransparent
+  | "st" => viaSteps ed .stampDown
+  | "pa" => viaSteps ed (.paste (pasteLayer (n 0) (n 1) (g 2) (g 3) (pat (n 4))))
+  | "afl" => viaSteps ed .addFloatingLayer
   | "rb" => viaSteps ed (.resizeBuffer (g 0) (g 1))
   | "rbl" => viaSteps ed (.resizeBufferLayers (g 0) (g 1))
   | "cr" => viaSteps ed .crop
   | "crr" => viaSteps ed (.cropRect ⟨g 0, g 1, g 2, g 3⟩)
-  | "ss" => viaSteps ed (.setSelection ⟨g 0, g 1, g 2, g 3⟩)
+  | "ss" => viaSteps ed (.setSelection ⟨⟨g 0, g 1, g 2, g 3⟩, 0, false⟩)
+  | "ssa" => viaSteps ed (.setSelection ⟨⟨g 0, g 1, g 2, g 3⟩, if g 4 = 1 then 1 else if g 4 = 2 then 2 else 0, g 5 != 0⟩)
   | "cs" => viaSteps ed .clearSelection
   | "ds" => viaSteps ed .deselect
+  | "asm" =>
+    -- `Shape::Lines` selections are not interpreted by the model
+    match ed.doc.sel with
+    | some s => if s.lines then .unmodelled else viaSteps ed .addSelectionToMask
+    | none => viaSteps ed .addSelectionToMask
+  | "inv" => viaSteps ed .inverseSelection
+  | "es" => viaSteps ed (.enumerateSelections (n 0))
+  | "er" => viaSteps ed .eraseSelection
+  | "erow" => viaSteps ed (.eraseLine 0)
+  | "erows" => viaSteps ed (.eraseLine 1)
+  | "erowe" => viaSteps ed (.eraseLine 2)
+  | "ecol" => viaSteps ed (.eraseLine 3)
+  | "ecols" => viaSteps ed (.eraseLine 4)
+  | "ecole" => viaSteps ed (.eraseLine 5)
   | "dr" => viaSteps ed .deleteRow
   | "ir" => viaSteps ed .insertRow
   | "dc" => viaSteps ed .deleteColumn
   | "ic" => viaSteps ed .insertColumn
-  -- operations outside the always-good fragment: direct transcriptions
-  | "sc" => ofEdit (apiSetChar ed (g 0) (g 1) ⟨n 2, 0, n 3, n 4, 0⟩)
-  | "sci" => ofEdit (apiSetChar ed (g 0) (g 1) Cell.invisible)
-  | "sw" => ofEdit (apiSwapChar ed (g 0) (g 1) (g 2) (g 3))
-  | "fx" => ofEdit (apiFlipX ed)
-  | "fy" => ofEdit (apiFlipY ed)
-  | "mt" => ofEdit (apiMakeTransparent ed)
-  | "su" => match apiScroll ed true with
-    | some r => ofEdit r
-    | none => .unmodelled
-  | "sd" => match apiScroll ed false with
-    | some r => ofEdit r
-    | none => .unmodelled
+  | "sc" => viaSteps ed (.setChar (g 0) (g 1) ⟨n 2, n 6, n 3, n 4, n 5⟩)
+  | "sci" => viaSteps ed (.setChar (g 0) (g 1) Cell.invisible)
+  | "sw" => viaSteps ed (.swapChar (g 0) (g 1) (g 2) (g 3))
+  | "fx" => viaSteps ed .flipX
+  | "fy" => viaSteps ed .flipY
+  | "jl" => viaSteps ed .justifyLeft
+  | "jr" => viaSteps ed .justifyRight
+  | "ce" => viaSteps ed .center
+  | "jll" => viaSteps ed (.lineOp 0)
+  | "jlr" => viaSteps ed (.lineOp 1)
+  | "cel" => viaSteps ed (.lineOp 2)
+  | "su" => viaSteps ed .scrollUp
+  | "sd" => viaSteps ed .scrollDown
+  | "sl" => viaSteps ed .scrollLeft
+  | "sr" => viaSteps ed .scrollRight
+  | "sfp" => viaSteps ed (.switchToFontPage (n 0))
+  | "saf" => viaSteps ed (.setFont 0 (fontArg (a.getD 1 (-1))))
+  | "ssf" => viaSteps ed (.setFont 1 (fontArg (a.getD 1 (-1))))
+  | "sf" => viaSteps ed (.setFont 2 (fontArg (a.getD 1 (-1))))
+  | "aaf" => viaSteps ed (.addFont (some (n 0)) (fontArg (a.getD 1 (-1))))
+  | "af" => viaSteps ed (.addFont none (fontArg (a.getD 1 (-1))))
+  | "rfu" => viaSteps ed (.replaceFontUsage (n 0) (n 1))
+  | "cfs" => viaSteps ed (.changeFontSlot (n 0) (n 1))
+  | "rmf" => viaSteps ed (.removeFont (n 0))
+  | "ice" => viaSteps ed (.setIceMode (if g 0 = 1 then 1 else if g 0 = 2 then 2 else 0))
+  | "pm" => viaSteps ed (.setPaletteMode (if g 0 = 1 then 1 else if g 0 = 2 then 2 else if g 0 = 3 then 3 else 0))
+  | "cpd" => viaSteps ed .copyPaste
+  | "spal" => viaSteps ed (.switchToPalette (dosDefaultPalette.set 1 ((n 0 % 256) * 65536 + 7 * 256 + 9)))
+  | "usd" => viaSteps ed (.updateSauce (if g 0 = 0 then none else some (n 0)))
+  | "ucp" => viaSteps ed .undoCaretPosition
+  | "prv" => viaSteps ed (.pushReverseResize (g 0) (g 1))
   | _ => .unmodelled
 
 def build (toks : List (String × List Int)) : Ed × List (String × List Int) :=
   let docTok := (toks.find? (·.1 == "D")).getD ("D", [])
-  let layers := (toks.filter (·.1 == "L")).map fun t => mkLayer t.2
+  let layers := ((toks.filter (·.1 == "L")).zipIdx).map fun t => mkLayer t.2 t.1.2
   let ops := toks.filter fun t => t.1 != "D" && t.1 != "L" && t.1 != ""
-  ({ doc := { w := docTok.2.getD 0 0, h := docTok.2.getD 1 0, layers := layers, sel := none, caretX := 0, caretY := 0, cur := 0, mirror := false },
+  let bw : Int := max (docTok.2.getD 0 0) 0
+  let bh : Int := max (docTok.2.getD 1 0) 0
+  let fm := (docTok.2.getD 2 0).toNat
+  ({ doc := { w := bw, h := bh, layers := layers, sel := none, caretX := 0, caretY := 0, cur := 0, mirror := false,
+              x := { fonts := [(0, (docTok.2.getD 4 5000).toNat)], fontMode := if fm ≤ 3 then fm else 0, palette := dosDefaultPalette,
+                     paletteMode := 1, iceMode := 0, sauce := none },
+              mask := ⟨bw, bh, []⟩, fontPage := 0 },
      undoStack := [], redoStack := [], guards := [] }, ops)
 
 def runOps (ed : Ed) (ops : List (String × List Int)) (acc : List String) : List String :=
@@ -151,6 +215,15 @@ def handle : List String → String
   | ["fails", spec] =>
     let (ed, ops) := build ((spec.splitOn ";").map parseTok)
     lastFails ed ops
+  | ["dump", spec] =>
+    -- debugging aid: the snapshot integers after the last step that succeeded
+    let (ed, ops) := build ((spec.splitOn ";").map parseTok)
+    let rec go (ed : Ed) : List (String × List Int) → Ed
+      | [] => ed
+      | (name, a) :: rest => match step ed name a with
+        | .ok ed' => go ed' rest
+        | _ => ed
+    natsToString (snap (go ed ops))
   | _ => "bad-op"
 
 end IcyVerif.Drv.Undo
